@@ -169,6 +169,12 @@ def stylerOf (theme : String) : Styler :=
 
 def handle (u : UTab) (args : List String) : String :=
   match args with
+  | "table" :: ncols :: sep :: cells =>
+    let cs : List Cell := cells.filterMap (fun c => match c.splitOn ":" with
+      | [v, f, r] => some ⟨decodeGo (bytesOfHex v), f == "1", r == "1"⟩
+      | _ => none)
+    let rows := renderRows ncols.toNat! (decodeGo (bytesOfHex sep)) cs
+    "ok " ++ hexOrDash (hexOfChars (rows.flatMap (· ++ ['\n'])))
   | ["strip", h] => "ok " ++ hexOrDash (hexOfChars (strip (decodeGo (bytesOfHex h))))
   | ["styledprint", h, theme] => withRecords h fun rs => "ok " ++ hexOrDash (hexOfChars (styledPrintRecords u (stylerOf theme) rs))
   | ["json", h, pretty, file] =>
